@@ -45,6 +45,12 @@ def handle : List String → String
       let out := match rrRule (dollarQuotedString n) a with
         | .rewritten d => s!"rewritten:{encBool d}" | .rejected => "rejected" | .untouched => "untouched"
       s!"impl={out}\tdoc_all={encBool a.docIsReplaceAll}"
+  | ["aliasjoin", aliases, joins] =>
+    let pj (t : String) : Option JoinOn :=
+      if t == "n" then some .noOn else if t == "o" then some .other else ((t.drop 1).toString.toNat?).map .aliasLeft
+    match (decList joins).mapM pj with
+    | some js => "impl=" ++ encList ((aliasInJoin (decNatList aliases) js).map encBool)
+    | none => "bad-op"
   | ["tonum", fn, args] =>
     match (decList args).mapM parseNArg with
     | none => "bad-op"
